@@ -649,6 +649,53 @@ Case gen_case(const std::string &profile, uint64_t seed, const GenOpts &go) {
             OpSpec d = mk(OP_DESTROY); d.values_id = cur_vals; c.ops.push_back(d);
             if (!expert) { OpSpec f = mk(OP_ROUTE_FINALIZE); f.values_id = cur_vals; c.ops.push_back(f); }
         }
+        {   // histories that start from an exactly singular first factorization (info in 1..n, factors and perm_r handed back) and
+            // then refactorize with nonsingular values, with or without pivot reuse: the perm_r the refactorization receives may name
+            // rows that are not in the structure of their column (found as D31).  Drawn from a stream of its own so that the
+            // other histories of this profile keep their seeds.
+            Rng rx(sim::derive(seed, 0x51b9));
+            if (rx.chance(0.2)) {
+                int kind = (int)rx.below(3);
+                std::vector<cld> sv = c.values[0];
+                int z = (int)rx.below(n);
+                if (kind == 0) { for (int k = c.M.colptr[z]; k < c.M.colptr[z + 1]; ++k) sv[k] = cld(0, 0); }                   // zero column
+                else if (kind == 1) { for (size_t k = 0; k < sv.size(); ++k) if (c.M.rowind[k] == z) sv[k] = cld(0, 0); }        // zero row
+                else {                                                                                                           // two equal columns (where the patterns allow) else zero column
+                    int z2 = (z + 1) % n; bool same = n > 1 && c.M.colptr[z + 1] - c.M.colptr[z] == c.M.colptr[z2 + 1] - c.M.colptr[z2];
+                    for (int k = 0; same && k < c.M.colptr[z + 1] - c.M.colptr[z]; ++k) if (c.M.rowind[c.M.colptr[z] + k] != c.M.rowind[c.M.colptr[z2] + k]) same = false;
+                    if (same && n > 1) for (int k = 0; k < c.M.colptr[z + 1] - c.M.colptr[z]; ++k) sv[c.M.colptr[z2] + k] = sv[c.M.colptr[z] + k];
+                    else for (int k = c.M.colptr[z]; k < c.M.colptr[z + 1]; ++k) sv[k] = cld(0, 0);
+                }
+                int sid = (int)c.values.size(); bool used = false;
+                for (size_t i = 0; i + 1 < c.ops.size(); ++i) {
+                    OpSpec &f = c.ops[i];
+                    bool first_time = (f.kind == OP_GSSVX && f.x.fact != 2 && !f.x.refact && f.x.lwork >= 0 && f.x.nprocs > 0 && f.values_id < 3) || (f.kind == OP_ROUTE && !f.x.refact && f.values_id < 3);
+                    if (!first_time || (f.x.lwork > 0 && f.x.lwork < 100000)) continue;
+                    // is the next factorizing operation a refactorization?
+                    for (size_t k = i + 1; k < c.ops.size(); ++k) {
+                        OpSpec &g = c.ops[k];
+                        if (g.kind == OP_DESTROY) break;
+                        if ((g.kind == OP_GSSVX || g.kind == OP_ROUTE) && g.x.refact) {
+                            f.values_id = sid; f.x.u = 1.0; used = true; c.tags["singular_first_then_refact"]++;
+                            // the interesting layouts come from pipelined panels (rows of busy descendants are added to every column of
+                            // the waiting panel, p?gstrf_panel_bmod.c), i.e. several threads with one of them held back; the refactorization
+                            // mostly asks for pivot reuse with a threshold that any nonzero old pivot passes
+                            if (!baseline) {
+                                f.x.nprocs = (int)rx.range(2, 4);
+                                if (rx.chance(0.6)) { f.sched.strategy = sim::ST_STALL; static const int kinds[] = {4, 24, 27, 6}; f.sched.stall_kind = kinds[rx.below(4)]; f.sched.stall_k = (int)rx.range(10, 120); f.sched.stall_nth = (int)rx.range(1, 12); f.sched.sticky_q = 0.5; f.sched.yield_mask = ~0ULL; }
+                            }
+                            if (rx.chance(0.8)) { g.x.usepr = 1; g.x.u = rx.chance(0.7) ? 0.0 : 0.01; }
+                            if (rx.chance(0.5)) g.x.nprocs = 1;
+                            // operations in between reuse the factors of f (they run only if rounding left no exact zero pivot): same values
+                            for (size_t q = i + 1; q < k; ++q) c.ops[q].values_id = sid;
+                            break;
+                        }
+                    }
+                    if (used) break;
+                }
+                if (used) c.values.push_back(sv);
+            }
+        }
         return c;
     }
     if (profile == "alloc") {
